@@ -449,8 +449,12 @@ class RuntimeV2_x(Runtime):
         local_running_actions: List[asyncio.Task[dict]] = []
 
         if state is None or state == {}:
+            # Every conversation gets its own table of flow configurations (flows can
+            # be added and removed at runtime)
             state = State(
-                flow_states={}, flow_configs=self.flow_configs, rails_config=self.config
+                flow_states={},
+                flow_configs=dict(self.flow_configs),
+                rails_config=self.config,
             )
             initialize_state(state)
         elif isinstance(state, dict):
